@@ -32,7 +32,7 @@ fn pred(rng: &mut Rng, q: &str) -> String {
 /// (sql, total_order, shape)
 fn gen_query(rng: &mut Rng) -> (String, bool, &'static str) {
     let w = |rng: &mut Rng, q: &str| if rng.chance(2, 3) { format!(" WHERE {}", pred(rng, q)) } else { String::new() };
-    match rng.below(17) {
+    match rng.below(19) {
         0 | 1 => (format!("SELECT id, a, b FROM t1{}", w(rng, "")), false, "scan-filter"),
         2 => (format!("SELECT a, b, id FROM t1{} ORDER BY a{}, b, id", w(rng, ""), rng.pick(&["", " DESC"])), true, "order-by-total"),
         3 => (format!("SELECT c, id FROM t1{} ORDER BY c{}, id DESC", w(rng, ""), rng.pick(&["", " DESC"])), true, "order-by-text-total"),
@@ -45,6 +45,8 @@ fn gen_query(rng: &mut Rng) -> (String, bool, &'static str) {
         10 => (format!("SELECT id FROM t1 WHERE NOT EXISTS (SELECT 1 FROM t2 WHERE t2.a = t1.a){}", if rng.chance(1, 2) { format!(" AND {}", pred(rng, "t1.")) } else { String::new() }), false, "anti-join"),
         11 => (format!("SELECT DISTINCT a, c FROM t1{}", w(rng, "")), false, "distinct"),
         12 => (format!("SELECT id, b FROM t1 WHERE a >= {} AND b < {}", rng.range(0, 20), rng.range(0, 1000)), false, "index-range-plus-filter"),
+        17 => (format!("SELECT a, id, b FROM t1 WHERE b <> {} ORDER BY a", rng.range(0, 1000)), false, "order-by-index-column-with-residual-filter"),
+        18 => (format!("SELECT a, b FROM t1 WHERE b >= {} AND c LIKE '%1%' ORDER BY a DESC", rng.range(0, 500)), false, "order-by-index-column-desc-with-residual-filter"),
         15 => ("SELECT x.id, y.id FROM t1 AS x INNER JOIN t1 AS y ON x.k = y.k".to_string(), false, "hash-join-keys-repeat-across-partitions"),
         16 => (format!("SELECT x.id, y.id, y.k FROM t1 AS x INNER JOIN t1 AS y ON x.k = y.k WHERE x.id <= {}", rng.range(1, 4000)), false, "hash-join-keys-repeat-across-partitions"),
         13 => (format!("SELECT x.id, y.id FROM t1 AS x INNER JOIN t2 AS y ON x.a = y.a WHERE b < {} AND id > {}", rng.range(0, 1000), rng.range(0, 20)), false, "join-with-unqualified-shared-names"),
@@ -123,6 +125,16 @@ pub fn run(ctx: &mut Ctx) {
             let rows = |o: &Outcome| -> Option<Vec<CRow>> { o.rows().cloned() };
             match (rows(&seq), rows(&par), rows(&par2)) {
                 (Some(a), Some(b), Some(c)) => {
+                    // ORDER BY on the first output column (ties allowed): every run must be sorted on it
+                    let order_key: Option<bool> = if shape.starts_with("order-by-index-column-desc") || sql.ends_with("ORDER BY a DESC") { Some(true) } else if shape == "order-by-with-ties" || shape.starts_with("order-by-index-column") { Some(false) } else { None };
+                    if let Some(desc) = order_key {
+                        for (which, rows) in [("sequential", &a), ("parallel", &b), ("parallel-repeat", &c)] {
+                            if !crate::checks::c02::sorted_by(rows, &[(0, desc)]) {
+                                fail(ctx, format!("result-not-in-order:{}|{}", which.split('-').next().unwrap(), shape), json!({"run": which, "first_rows": show_rows(rows, 25), "parallel_operators": used}));
+                                break;
+                            }
+                        }
+                    }
                     let eq = |x: &[CRow], y: &[CRow]| if total_order { seq_eq(x, y, 1e-9) } else { multiset_eq(x, y, 1e-9) };
                     if !eq(&a, &b) {
                         fail(ctx, format!("parallel-differs-from-sequential:{}", shape), json!({"sequential": show_rows(&a, 25), "parallel": show_rows(&b, 25), "rows": [a.len(), b.len()], "parallel_operators": used}));
